@@ -47,7 +47,7 @@ void WorldQ::check_bounce(GMsg *b) {
         if (r.last_verdict != 'D' || had_lossy_crash) { r.named = true; break; }
         size_t s0 = pos + head.size(), e0 = bm->data.find("\n\n", s0 ? s0 - 1 : 0); std::string got = bm->data.substr(s0, e0 == std::string::npos || e0 < s0 ? 0 : e0 - s0);
         std::string a1, b1; for (char c : r.fail_text) if (c != '\n' && c != '/') a1 += c; for (char c : got) if (c != '\n' && c != '/') b1 += c;
-        if (a1 == b1) r.named = true;
+        if (a1 == b1 || (std::min(a1.size(), b1.size()) >= 5000 && a1.compare(0, std::min(a1.size(), b1.size()), b1, 0, std::min(a1.size(), b1.size())) == 0)) r.named = true;   // reports are cut at REPORTMAX (10000) bytes
       }
       k->probe("c03_bounce_naming_checked");
     }
